@@ -47,6 +47,14 @@ MENU = [
     (r'\begin{frac}x\end{frac}\sqrtx \begin{sqrt}y\end{sqrt}', 'D', False),  # names known as macros, used as environments
     (r'$\me^{a}_b{c}$ \me_d{e}', 'A', False),                               # embellishment arguments
     (r'\me{a}\me^b{c}', 'A', False),
+    (r'{\me{a}^ }', 'A', True),                                              # an embellishment marker with nothing to read after it
+    (r'{\me{a}_ %c' + '\n' + r'}', 'A', False),
+    # no explicit context: every call builds a new default database from the module-level specification tables
+    (r'\begin{theorem}[Main]x\end{theorem}\begin{proof}[p]y\end{proof}\begin{lemma}z\end{lemma}', 'N', False),
+    (r'\textbf{a}\sqrt[3]{x}\begin{enumerate}[a]\item[b] c\end{enumerate}\begin{align}x\end{align}', 'N', False),
+    # one walker object asked to parse several times (whole content, one node, whole content again)
+    (r'\textbf{a}\sqrt[3]{x} b {c}', 'D', False, 'rewalk'),
+    (r'\mo[x]{a}\mv|y| z', 'A', True, 'rewalk'),
 ]
 
 
@@ -75,13 +83,16 @@ def canon_db(db):
 def do_call(i):
     """Perform menu call i; returns canonical outcome."""
     from pylatexenc.latexwalker import LatexWalkerParseError
-    s, ctx, tol = MENU[i]
+    s, ctx, tol = MENU[i][:3]
+    mode = MENU[i][3] if len(MENU[i]) > 3 else None
     db = contexts.get(ctx)
-    dbs = [db] + ([contexts.get('Xbase')] if ctx == 'X' else [])
+    dbs = ([db] if db is not None else []) + ([contexts.get('Xbase')] if ctx == 'X' else [])
     before = [canon_db(x) for x in dbs]
-    st, res = run_guarded(contexts.parse, s, ctx, tol)
+    st, res = run_guarded(contexts.parse if mode is None else _rewalk, s, ctx, tol)
     after = [canon_db(x) for x in dbs]
-    if st == 'ok':
+    if st == 'ok' and mode == 'rewalk':
+        out = res
+    elif st == 'ok':
         out = ('tree', canon.canon_node(res[1]))
     elif st == 'timeout':
         out = ('timeout',)
@@ -90,6 +101,19 @@ def do_call(i):
     else:
         out = ('exception', type(res).__name__, exc_frame(res))
     return out, before == after
+
+
+def _rewalk(s, ctx, tol):
+    from pylatexenc.latexwalker import LatexWalker
+    from pylatexenc.latexnodes.parsers import LatexGeneralNodesParser, LatexSingleNodeParser
+    lw = LatexWalker(s, latex_context=contexts.get(ctx), tolerant_parsing=tol)
+    r1 = canon.canon_node(lw.parse_content(LatexGeneralNodesParser())[0])
+    r2 = canon.canon_node(lw.parse_content(LatexGeneralNodesParser())[0])
+    n3 = lw.parse_content(LatexSingleNodeParser())[0]
+    r4 = canon.canon_node(lw.parse_content(LatexGeneralNodesParser())[0])
+    if r1 == r2 == r4:
+        return ('tree', r1)
+    return ('rewalk-differs', r1, r2, r4)
 
 
 def baseline_main(i):
@@ -161,6 +185,10 @@ def check_history(hist, base, acc):
     for step, (i, (out, same)) in enumerate(zip(hist, res)):
         acc.count('transitions')
         acc.outcome((i, out))
+        if out.startswith("('rewalk-differs'"):
+            acc.violation(ID, 'hist', dict(history=list(hist), step=step),
+                          dict(kind='second-parse-on-the-same-walker-differs', call=i, input=MENU[i][0], ctx=MENU[i][1]), observed=out[:600])
+            break
         if out != base[i][0]:
             prev = sorted(set(hist[:step]))
             acc.violation(ID, 'hist', dict(history=list(hist), step=step),
@@ -194,7 +222,7 @@ GROUPS = None
 
 
 def group_of(i):
-    return MENU[i][1][0]       # 'A' (custom all-argument-types), 'D' (default), 'X' (context-extending)
+    return MENU[i][1][0]       # 'A' (custom all-argument-types), 'D' (default), 'X' (context-extending), 'N' (no explicit context)
 
 
 def run_shard(shard, tier, acc):
